@@ -1,7 +1,7 @@
 SPECIFICATION Spec
 CONSTANTS
   Dims <- DimsThorough
-  Schemes = {"contiguous", "gaps", "reversed", "scattered", "zero_based"}
+  Schemes = {"contiguous", "gaps", "reversed", "scattered", "offset", "zero_based"}
 INVARIANT IdsInjective
 INVARIANT InteriorNodesHaveEightElements
 INVARIANT BoundaryCount
